@@ -281,6 +281,8 @@ type c18Machine struct {
 	// ext (optional) models calls of functions outside the repository for another rule's runs (C16.k: uniseg line
 	// breaking over a small alphabet); ok=false = no model, the call is treated as before
 	ext func(m *c18Machine, fr *c18Frame, full string, call *ast.CallExpr) (v c18Val, ok bool)
+	// extSegmenter: ext also replaces the built-in model of uniseg.FirstGraphemeClusterInString (C11.n)
+	extSegmenter bool
 }
 
 type c18CallInfo struct {
@@ -884,6 +886,12 @@ func (m *c18Machine) call(fr *c18Frame, call *ast.CallExpr) c18Val {
 			return c18Val{}
 		}
 	case "github.com/rivo/uniseg.FirstGraphemeClusterInString":
+		// a rule's own model of the segmenter (m.ext with m.extSegmenter, C11.n) takes precedence over the built-in one
+		if m.ext != nil && m.extSegmenter {
+			if v, ok := m.ext(m, fr, full, call); ok {
+				return v
+			}
+		}
 		// model: the first rune is the cluster, width 1 (the check only feeds single-rune ASCII graphemes)
 		a := m.eval(fr, call.Args[0])
 		if a.k != c18Str || a.s == "" {
